@@ -666,6 +666,18 @@ def cases(tier, seed):
             ty = [INT, DBL, FLT][k % 3] if not thorough else None
             for t in ([ty] if ty else [INT, DBL, FLT]):
                 out.append(trans_self_case(t, 3 if k % 2 else 2, 0, form, Cfg(isa, 'c++14', pipe='P1' if t is INT else 'P0')))
+    # ---- lazy conjugate transpose in every additive assignment form (complex element types; cases built by units.c14)
+    try:
+        import importlib
+        c14 = importlib.import_module('units.c14')
+        for isa in il:
+            for base in (DBL, FLT):
+                for kind in ('ctrans-assign', 'ctrans-addassign', 'ctrans-add', 'ctrans-subassign', 'ctrans-sub'):
+                    cc = c14.ctrans_case(2, 3, Cfg(isa, pipe='P0') if kind != 'ctrans-assign' else Cfg(isa), kind, base)
+                    cc.prop = 'C09'; cc.cid = 'C09/' + cc.cid.split('/', 1)[1]
+                    out.append(cc)
+    except ImportError:
+        pass
     # ---- bounded integer families (B01)
     IS = int_statements(thorough)
     il = isas(tier)
